@@ -39,7 +39,8 @@ SEARCH_RULE = ('DKW band eps_n = sqrt(ln(2/delta)/(2n)), delta = 1e-9.  Required
                'Statistical part only in the thorough tier / when an obligation is broken; the quick tier runs the '
                'deterministic oracles (exact estimators, param maps, KDE density = kernel estimate - also after the caller '
                'overwrites the training array in place -, supports, 4 moderately U-shaped Beta samples (n = 5000, every dataset '
-               'within 2 eps\'_n), TruncatedGaussian with '
+               'within 2 eps\'_n), TruncatedGaussian on large-scale (1e3) asymmetrically truncated data (n = 5000, every dataset within '
+               '2 eps\'_n / 3 eps\'_n), TruncatedGaussian with '
                'user bounds equal to 0, fitted Beta support not wider than 3x the data range for data inside (0,1))')
 PARTIAL = ['consistency_partial: the DKW-band closeness of the fitted CDF to the generating/empirical CDF is a statistical '
            'statement about the sample and scipy\'s optimisers (fmin for the MLE families, SLSQP for TruncatedGaussian); no Lean '
@@ -930,6 +931,56 @@ def beta_unit_width_oracle(ctx, seed, deep):
     return checked
 
 
+TRUNC_ASYM = [(0.0, 3.0), (-3.0, 0.0), (-0.5, 2.5), (-2.0, 0.3), (-0.3, 3.0)]
+
+
+def trunc_large_scale_oracle(ctx, seed, deep):
+    """TruncatedGaussian (own optimiser: EVERY dataset) on data with a large absolute spread and asymmetric truncation
+    a <= 0 <= b (the loc bound [min, max] and the squared-range cap on scale are then inactive): parent scale 1e2 and 1e3,
+    user-supplied and data-derived bounds, n = 5000 (deep: also 2000).  Required: sup|F_fit - F_true| <= 2 eps'_n and
+    sup|F_fit - ECDF| <= 3 eps'_n, eps'_n = 1.95/sqrt(n) (clean tree: sqrt(n)*sup|F_fit - F_true| <= 0.81 over 320 fits; an
+    optimiser stopped early gives 4.2 - 7.6).  Scale 1e4 is only RECORDED in ctx.support: the unchanged SLSQP run already
+    degrades there (sqrt(n)*sup up to 6.2 at n = 5000, loc = 5*scale), see the report."""
+    checked = 0
+    members = []
+    for i, (a, b) in enumerate(TRUNC_ASYM if deep else TRUNC_ASYM[:4]):
+        for scale in ((1e3, 1e2) if deep else (1e3,)):
+            for n in ((5000, 2000) if deep else (5000,)):
+                members.append((a, b, scale, 0.0 if i % 2 == 0 else 5 * scale, 'both' if (i + (scale == 1e2)) % 2 == 0 else 'none', n))
+                if deep:
+                    members.append((a, b, scale, 5 * scale if i % 2 == 0 else 0.0, 'none' if (i + (scale == 1e2)) % 2 == 0 else 'both', n))
+    worst = 0.0
+    for idx, (a, b, scale, loc, ub, n) in enumerate(members):
+        p = {'loc': loc, 'scale': scale, 'shapes': [a, b], 'user_bounds': ub}
+        X = np.asarray(true_dist('truncated', p).rvs(n, random_state=vc.np_rng(seed, 'C04', 'trunc-large', idx, n)), dtype=float)
+        res = dkw_eval('truncated', p, X, rule='cell')
+        checked += 1
+        ctx.count(f'dkw.truncated.large-scale.scale={scale:g}')
+        e = band_d(n)
+        inp = {'family': 'truncated', 'params': p, 'n': n, 'seed': seed, 'data_path': ['trunc-large', idx, n], 'ctor': res.get('ctor')}
+        if res.get('support'):
+            ctx.fail_input('TruncatedGaussian.fit', inp, res['support'][1], 'user bounds honoured / no mass outside',
+                           f'TruncatedGaussian.fit:{res["support"][0]}')
+        if res.get('exc') or not (res['d_true'] <= 2 * e and res['d_emp'] <= 3 * e):
+            ctx.fail_input('TruncatedGaussian.fit', inp, {k: res.get(k) for k in ('d_true', 'd_emp', 'params', 'exc')},
+                           f'truncnorm(a={a}, b={b}, loc={loc}, scale={scale}), n = {n}: sup|F_fit - F_true| <= {2 * e:.4f} and '
+                           f'sup|F_fit - ECDF| <= {3 * e:.4f} for EVERY dataset', 'TruncatedGaussian.fit:dkw:large-scale-asymmetric')
+        if not res.get('exc'):
+            worst = max(worst, res['d_true'] * math.sqrt(n))
+    stats_ = {'members': len(members), 'worst sqrt(n)*sup|F_fit-F_true| (scale 1e2, 1e3)': round(worst, 3)}
+    if deep:                       # recorded only
+        w4 = 0.0
+        for idx, (a, b) in enumerate(TRUNC_ASYM):
+            for loc in (0.0, 5e4):
+                p = {'loc': loc, 'scale': 1e4, 'shapes': [a, b], 'user_bounds': 'both' if idx % 2 else 'none'}
+                X = np.asarray(true_dist('truncated', p).rvs(5000, random_state=vc.np_rng(seed, 'C04', 'trunc-1e4', idx, loc)), dtype=float)
+                res = dkw_eval('truncated', p, X, rule='cell')
+                if not res.get('exc'):
+                    w4 = max(w4, res['d_true'] * math.sqrt(5000))
+        stats_['recorded only: worst sqrt(n)*sup at scale 1e4, n=5000'] = round(w4, 3)
+    return checked, stats_
+
+
 U_QUICK = [(0.5, 0.35), (0.45, 0.45), (0.35, 0.5), (0.4, 0.6), (0.5, 0.5)]
 
 
@@ -1042,6 +1093,8 @@ def search(ctx, deep, seed=None):
     checked += beta_unit_width_oracle(ctx, seed, deep)
     checked += beta_u_shaped_oracle(ctx, seed, deep)
     checked += kde_alias_oracle(ctx, seed, deep)
+    c_, large_stats = trunc_large_scale_oracle(ctx, seed, deep)
+    checked += c_
     # --- bounded scipy-MLE family: support of the fitted Beta (deterministic)
     if not deep:
         for idx, p in enumerate(fixed_design('beta', 4)):
@@ -1053,7 +1106,7 @@ def search(ctx, deep, seed=None):
                                res['support'][1], 'no mass outside the fitted support', f'BetaUnivariate.fit:{res["support"][0]}')
         ctx.support = {'oracle_checks': checked, 'deep': False, 'note': 'quick tier: deterministic oracles only (exact estimators, '
                        'param maps, KDE density, supports); the statistical experiment runs in the thorough tier',
-                       'failures': len(ctx.failing)}
+                       'truncated large-scale asymmetric': large_stats, 'failures': len(ctx.failing)}
         return
     ka, kf = kde_dkw(ctx, seed, deep, ns)
     checked += ka
@@ -1089,7 +1142,8 @@ def search(ctx, deep, seed=None):
                                'the cell', key)
     ctx.support = {'oracle_checks': checked, 'deep': deep, 'delta': DELTA, 'rule': SEARCH_RULE,
                    'cells(passed/of)': {k: f'{v[1]}/{v[0]}' for k, v in sorted(cells.items())},
-                   'kde(passed/of)': f'{ka - kf}/{ka}', 'failures': len(ctx.failing)}
+                   'kde(passed/of)': f'{ka - kf}/{ka}', 'truncated large-scale asymmetric': large_stats,
+                   'failures': len(ctx.failing)}
 
 
 def replay(ctx, payload):
